@@ -1,6 +1,7 @@
 SPECIFICATION Spec
-CONSTANTS NS = 2
- NF = 3
+CONSTANTS NS = 3
+ NF = 1
  Deviation = "none"
 INVARIANTS Closed Sound StackBounded
+PROPERTY Terminates
 CHECK_DEADLOCK FALSE
